@@ -22,8 +22,7 @@ package zkmulstar
 
 //@ func (*Proof).Verify
 //@   nopanic[C10]
-//@   modifies nothing
-//@   allocates
+//@   modifies hstate(hash)
 //@   requires group != nil && hash != nil && hash.h != nil && public.C != nil && public.D != nil && public.X != nil && pkok(public.Verifier) && pedok(public.Aux) && (p != nil ==> shaped(p))
 
 //@ func challenge
